@@ -120,8 +120,33 @@ def pred_int_number(case):
     return "integer" in ts and "number" in ts
 
 def pred_array_items(case):
-    its = {J(s.get("items")) for s in all_schemas(case) if s.get("type") == "array" and "items" in s}
-    return len(its) > 1
+    """two array schemas whose item schemas CONFLICT (no value satisfies both: disjoint types, disjoint enumerations) at a position
+    both constrain — the mechanism of C09-array-items; item schemas that merely differ but are compatible do not count"""
+    def types(x):
+        if not isinstance(x, dict): return None
+        t = x.get("type")
+        ts = set(t if isinstance(t, list) else [t]) if t is not None else None
+        if ts is None and isinstance(x.get("enum"), list):
+            ts = {"null" if v is None else "boolean" if isinstance(v, bool) else "integer" if isinstance(v, int) else "number" if isinstance(v, float)
+                  else "string" if isinstance(v, str) else "array" if isinstance(v, list) else "object" for v in x["enum"]}
+        if ts is not None and "number" in ts: ts = ts | {"integer"}
+        return ts
+    def conflict(a, b):
+        if a is False or b is False: return True
+        ta, tb = types(a), types(b)
+        if ta is not None and tb is not None and not (ta & tb): return True
+        if isinstance(a, dict) and isinstance(b, dict) and isinstance(a.get("enum"), list) and isinstance(b.get("enum"), list):
+            return not any(J(x) == J(y) for x in a["enum"] for y in b["enum"])
+        return False
+    arrs = [s for s in all_schemas(case) if s.get("type") == "array" and "items" in s]
+    def at(s, i):
+        it = s["items"]
+        return (it[i] if i < len(it) else None) if isinstance(it, list) else it
+    for i_, a in enumerate(arrs):
+        for b in arrs[i_ + 1:]:
+            n = max(len(a["items"]) if isinstance(a["items"], list) else 1, len(b["items"]) if isinstance(b["items"], list) else 1)
+            if any(at(a, k) is not None and at(b, k) is not None and conflict(at(a, k), at(b, k)) for k in range(n)): return True
+    return False
 
 def pred_not(case):
     return any("not" in s for s in all_schemas(case))
